@@ -85,7 +85,16 @@ Definition readLitDistLens_F (fuel : nat) (s : inflate) (hdist hlit : N) : infla
 
 Lemma readLitDistLens_eq : forall s hdist hlit,
   readLitDistLens s hdist hlit = readLitDistLens_F small_fuel s hdist hlit.
-Proof. reflexivity. Qed.
+Proof. intros s hdist hlit. unfold readLitDistLens, readLitDistLens_F. reflexivity. Qed.
+
+Lemma readLitDistLens_F_eq : forall fuel s hdist hlit,
+  readLitDistLens_F fuel s hdist hlit =
+  let '(st, err) := rl_loop fuel (clcShort (dyn s)) (clcLong (dyn s)) (Z.of_N (litTableSize + hlit))
+                      (Z.of_N (litLen + hdist + 1))
+                      (mkRL (rd s) (litAndDistHuff (dyn s)) (litCount (dyn s)) (distCount (dyn s))
+                            (litExpandCount (dyn s)) 0%Z (-1)%Z false) in
+  (set_rd (set_dyn s (set_dyn_counts (dyn s) (rl_h st) (rl_lc st) (rl_dc st) (rl_ex st))) (rl_b st), err).
+Proof. intros. unfold readLitDistLens_F. reflexivity. Qed.
 
 (* ---------------------------------------------------------------- tactics *)
 Ltac sproj5 :=
@@ -131,7 +140,8 @@ Proof.
   destruct (C3 eq_refl) as (sh1 & lg1 & sh2 & lg2 & -> & -> & Hclc). clear C3.
   rewrite readLitDistLens_eq in H1, H2.
   set (fuel := small_fuel) in H1, H2. clearbody fuel.
-  unfold readLitDistLens_F in H1, H2. sproj5.
+  rewrite readLitDistLens_F_eq in H1, H2.
+  sproj5.
   destruct (rl_loop fuel sh1 lg1 (Z.of_N (litTableSize + hlit)) (Z.of_N (litLen + hdist + 1))
               (mkRL b' aempty aempty aempty aempty 0%Z (-1)%Z false)) as [st1 err1] eqn:Erl1.
   destruct (rl_loop fuel sh2 lg2 (Z.of_N (litTableSize + hlit)) (Z.of_N (litLen + hdist + 1))
